@@ -31,6 +31,11 @@ pub type BusResult<'a> = Result<Option<Message<'a>>, Box<dyn Error + Send + Sync
 pub fn bus_error(cx: &Cx, what: &'static str) -> Box<dyn Error + Send + Sync> {
     use std::io;
     let kinds = [io::ErrorKind::TimedOut, io::ErrorKind::BrokenPipe, io::ErrorKind::Other, io::ErrorKind::UnexpectedEof, io::ErrorKind::WouldBlock];
+    if cx.chance(1, 10) {
+        // an error that comes straight from the operating system (it carries an errno)
+        cx.probe("bus_error_with_os_code");
+        return Box::new(io::Error::from_raw_os_error(*cx.pick(&[110, 5, 11, 32])));
+    }
     match cx.draw(8) {
         0 => Box::new(SimBusError(what)),
         6 => Box::new(flipdot::SignError::UnexpectedResponse { expected: "nothing".into(), actual: what.into() }),
